@@ -143,6 +143,7 @@ ST_SCENS = ["ST1", "ST2", "ST3"]
 
 def tasks_c11(tier, seed):
     ts = seq("c11", tier, shards=16)
+    ts += explore("ST4-badger", "", 2 if tier == "quick" else -1, shards=1 if tier == "quick" else 4, timeout="100s" if tier == "quick" else "10m")
     for p in ST_SCENS:
         if tier == "quick":
             ts += explore(p + "-mock", "", 2, timeout="100s")
